@@ -215,11 +215,28 @@ func (idx *Index) read(rootGoitPath string) error {
 			return fmt.Errorf("fail to read path from index: %w", err)
 		}
 
+		// an entry names a file inside the working tree
+		if !isWorkingTreePath(string(path)) {
+			return fmt.Errorf("invalid path in index: %q", path)
+		}
+
 		entry := NewEntry(hash, path)
 		idx.Entries = append(idx.Entries, entry)
 	}
 
 	return nil
+}
+
+func isWorkingTreePath(path string) bool {
+	if path == "" || strings.HasPrefix(path, "/") {
+		return false
+	}
+	for _, component := range strings.Split(path, "/") {
+		if component == ".." {
+			return false
+		}
+	}
+	return true
 }
 
 func (idx *Index) write(rootGoitPath string) error {
